@@ -114,9 +114,10 @@ class Check:
                 unlisted.append(v)
         for v, e in listed:
             out_lines.append('KNOWN-FINDING: property=%s %s %s' % (self.pid, v['key'], e.get('what', v['msg'])))
-        os.makedirs(os.path.join(VERIF, 'reports'), exist_ok=True)
+        repdir = os.path.join(VERIF, 'reports') if os.path.abspath(extract.REPO) == '/repo' else '/tmp/qxm/reports'
+        os.makedirs(repdir, exist_ok=True)
         for i, v in enumerate(unlisted, 1):
-            rp = os.path.join(VERIF, 'reports', '%s-%d.json' % (self.pid, i))
+            rp = os.path.join(repdir, '%s-%d.json' % (self.pid, i))
             with open(rp, 'w') as fh:
                 json.dump({'property': self.pid, 'key': v['key'], 'rule': v['rule'], 'site': v['site'], 'message': v['msg'],
                            'replay': 'bin/qx check %s' % self.pid, 'tree_hash': self.facts.get('_hash')}, fh, indent=1)
@@ -171,8 +172,11 @@ class Check:
             'wall_s': round(wall, 3),
             'violations': len(unlisted),
         }
-        os.makedirs(os.path.join(VERIF, 'evidence'), exist_ok=True)
-        with open(os.path.join(VERIF, 'evidence', '%s.json' % self.pid), 'w') as fh:
+        evdir = os.path.join(VERIF, 'evidence')
+        if os.path.abspath(extract.REPO) != '/repo':
+            evdir = os.environ.get('QX_EVIDENCE_DIR', '/tmp/qxm/evidence')   # scratch-copy runs never touch /verif/evidence
+        os.makedirs(evdir, exist_ok=True)
+        with open(os.path.join(evdir, '%s.json' % self.pid), 'w') as fh:
             json.dump(ev, fh, indent=1, sort_keys=False)
         summary = '%s: %d obligations, %d discharged, %d known finding(s), %d violation(s), %d control(s) [%s], %.1fs' % (
             self.pid, self.obligations, self.discharged, len(listed), len(unlisted), len(self.controls),
